@@ -51,29 +51,8 @@ func runC03(c *Ctx) {
 		}
 	})
 
-	// the pack function is used exactly once, directly: every reply goes through the steps checked below
-	{
-		c.rule("R2", "the packed message is the plugins' response or SetReply(query) with SERVFAIL (error) / REFUSED (no answer)", 3)
-		pk := h.Params[len(h.Params)-1]
-		nCalls, escapes := 0, ""
-		eachInstrDeep(h, func(f *ssa.Function, in ssa.Instruction) {
-			ci, ok := in.(ssa.CallInstruction)
-			if !ok {
-				return
-			}
-			if callName(ci) == "dynamic" && isParamValue(p, ci.Common().Value, pk) {
-				nCalls++
-				return
-			}
-			for _, a := range ci.Common().Args {
-				if isParamValue(p, a, pk) {
-					escapes = callName(ci)
-				}
-			}
-		})
-		c.check(nCalls == 1 && escapes == "", "single-pack-site", h.Pos(), "the reply is packed at exactly one place in Handle",
-			fmt.Sprintf("the pack function is called %d times / handed to %q: some replies bypass RA forcing, OPT re-attachment or UDP truncation", nCalls, escapes))
-	}
+	c.rule("R2", "the packed message is the plugins' response or SetReply(query) with SERVFAIL (error) / REFUSED (no answer)", 3)
+	checkSinglePackSite(c, h)
 
 	// ---------------------------------------------------------------- R1
 	c.rule("R1", "malformed queries are rejected before the entry runs and get no reply", 5)
@@ -155,6 +134,46 @@ func runC03(c *Ctx) {
 	}
 	resp := packCall.Call.Args[0]
 	errV := ssa.Value(execCall)
+	// every return after validation hands back the packed payload; nil only when packing itself failed
+	{
+		var payload, packErr ssa.Value
+		for _, r := range referrers(packCall) {
+			if ex, ok := r.(*ssa.Extract); ok {
+				if ex.Index == 0 {
+					payload = ex
+				} else {
+					packErr = ex
+				}
+			}
+		}
+		good, n := true, 0
+		why := ""
+		for _, r := range returnsOf(h) {
+			if newCtx == nil || !instrDominates(newCtx, r) {
+				continue
+			}
+			n++
+			rv := returnedValues(r)[0]
+			if rv == payload && payload != nil {
+				continue
+			}
+			if isNilConst(rv) {
+				onPackErr := false
+				for _, g := range guardsOfInstr(r) {
+					if cm, ok := g.asCmp(); ok && cm.X == packErr && isNilConst(cm.Y) && cm.Op == token.NEQ {
+						onPackErr = true
+					}
+				}
+				if onPackErr {
+					continue
+				}
+				good, why = false, "a validated query can end without a reply (return nil not caused by a packing error)"
+				continue
+			}
+			good, why = false, "Handle returns "+exprStr(rv)+" instead of the packed reply"
+		}
+		c.check(good && n > 0, "reply:returned", instrPos(packCall), "after validation every return hands back the packed reply (nil only when packing failed)", why)
+	}
 	for _, lf := range expandCases(resp, nil, 0) {
 		switch v := lf.val.(type) {
 		case *ssa.Call:
@@ -253,16 +272,26 @@ func runC03(c *Ctx) {
 			}
 			c.check(order, "opt-before-truncate", instrPos(truncCall), "the response OPT is attached before the size is enforced",
 				"Truncate runs before the response OPT is re-attached: the 11-byte OPT is not counted and a UDP reply can exceed the advertised size without TC")
-			c.check(truncCall.Call.Args[0] == resp && instrDominates(truncCall, packCall) == false && truncCall.Block().Dominates(packCall.Block()) == false || true, "truncate-target", instrPos(truncCall), "truncates the reply being packed", "")
-			// iff FromUDP
+			// iff FromUDP: beyond the validation guards, the truncation runs under exactly {FromUDP}
 			udp := false
+			extra := ""
+			base := map[string]bool{}
+			for _, g := range guardsOfInstr(newCtx) {
+				base[guardKey(g)] = true
+			}
 			for _, g := range guardsOfInstr(truncCall) {
+				if base[guardKey(g)] {
+					continue
+				}
 				v, truth := g.asBool()
 				if k, _ := loadedField(v); strings.HasSuffix(k, ".QueryMeta.FromUDP") && truth {
 					udp = true
+					continue
 				}
+				extra = guardText(g)
 			}
-			c.check(udp && truncCall.Call.Args[0] == resp, "truncate-iff-udp", instrPos(truncCall), "the packed reply is truncated exactly for UDP queries", "truncation is not tied to 'query arrived over UDP' or does not apply to the reply being packed")
+			c.check(udp && extra == "" && truncCall.Call.Args[0] == resp, "truncate-iff-udp", instrPos(truncCall), "the packed reply is truncated exactly for UDP queries",
+				"truncation is not tied to exactly 'query arrived over UDP' (extra condition: "+extra+") or does not apply to the reply being packed: some UDP replies exceed the size the client advertised")
 			// truncation before packing
 			_, packFirst := reachAvoiding(packCall, func(x ssa.Instruction) bool { return x == ssa.Instruction(truncCall) }, nil)
 			c.check(!packFirst, "truncate-before-pack", instrPos(packCall), "packing comes last", "the reply is packed before it is truncated")
@@ -339,35 +368,16 @@ func runC03(c *Ctx) {
 
 	// ---------------------------------------------------------------- R9
 	c.rule("R9", "context copies are deep: a copy's query and response are Copy()s of the original's", 2)
-	if ct := c.fn(relQctx, "Context", "CopyTo"); ct != nil {
-		for _, fld := range []string{"query", "resp"} {
-			good, n := true, 0
-			eachInstr(ct, func(in ssa.Instruction) {
-				st, ok := in.(*ssa.Store)
-				if !ok {
-					return
-				}
-				if k, _ := fieldKey(st.Addr); k != relQctx+".Context."+fld {
-					return
-				}
-				n++
-				cl, ok := st.Val.(*ssa.Call)
-				if !ok || callName(cl) != "(*github.com/miekg/dns.Msg).Copy" {
-					good = false
-					return
-				}
-				if k, _ := loadedField(cl.Call.Args[0]); k != relQctx+".Context."+fld {
-					good = false
-				}
-			})
-			c.check(good && n > 0, "deep-copy:"+fld, ct.Pos(), "copy."+fld+" = original."+fld+".Copy()",
-				"a context copy shares its "+fld+" message with the original: plugins that rewrite the question or response on a 'copy' (dual-stack selector, fallback, lazy refresh) change the live query")
-		}
-	}
+	checkContextCopyDeep(c)
 
 	// ---------------------------------------------------------------- R8
 	c.rule("R8", "the cache key is injective in the question (a hit must carry the asker's own question)", 37)
 	checkCacheKeyLayout(c)
+
+	// ---------------------------------------------------------------- R10
+	c.rule("R10", "the bytes sent are the packed reply: the packer returns a pool buffer of its own holding the message, and no pooled buffer (module-wide) is used, stored, returned or released again after its release", 26)
+	checkPackBufferExact(c)
+	checkBufferTypestate(c, p.Funcs)
 }
 
 // runC03R5: provenance of SetResponse arguments.
@@ -614,5 +624,77 @@ func runC03R6(c *Ctx) {
 			})
 			c.check(restored, key, instrPos(in), "restored by a defer registered right after the change", "the query's "+fieldTail(k)+" is changed without a deferred restore: when the rest of the chain fails or panics the reply is built for the rewritten question")
 		})
+	}
+}
+
+// guardText renders a guard position-independently (condition and truth).
+func guardText(g guard) string {
+	if cm, ok := g.asCmp(); ok {
+		return exprStr(cm.X) + " " + cm.Op.String() + " " + exprStr(cm.Y)
+	}
+	v, truth := g.asBool()
+	if v != nil {
+		if truth {
+			return exprStr(v)
+		}
+		return "!" + exprStr(v)
+	}
+	return "?"
+}
+
+// checkContextCopyDeep implements C03-R9 / C15-R8.
+func checkContextCopyDeep(c *Ctx) {
+	if ct := c.fn(relQctx, "Context", "CopyTo"); ct != nil {
+		for _, fld := range []string{"query", "resp"} {
+			good, n := true, 0
+			eachInstr(ct, func(in ssa.Instruction) {
+				st, ok := in.(*ssa.Store)
+				if !ok {
+					return
+				}
+				if k, _ := fieldKey(st.Addr); k != relQctx+".Context."+fld {
+					return
+				}
+				n++
+				cl, ok := st.Val.(*ssa.Call)
+				if !ok || callName(cl) != "(*github.com/miekg/dns.Msg).Copy" {
+					good = false
+					return
+				}
+				if k, _ := loadedField(cl.Call.Args[0]); k != relQctx+".Context."+fld {
+					good = false
+				}
+			})
+			c.check(good && n > 0, "deep-copy:"+fld, ct.Pos(), "copy."+fld+" = original."+fld+".Copy()",
+				"a context copy shares its "+fld+" message with the original: plugins that rewrite the question or response on a 'copy' (dual-stack selector, fallback, lazy refresh) change the live query")
+		}
+	}
+}
+
+// checkSinglePackSite (C03-R2, C15-R5): the pack function handed to Handle is called at exactly one place and not
+// passed on, so every reply goes through the steps that dominate that call (RA, OPT re-attachment, truncation).
+func checkSinglePackSite(c *Ctx, h *ssa.Function) {
+	p := c.P
+	// the pack function is used exactly once, directly: every reply goes through the steps checked below
+	{
+		pk := h.Params[len(h.Params)-1]
+		nCalls, escapes := 0, ""
+		eachInstrDeep(h, func(f *ssa.Function, in ssa.Instruction) {
+			ci, ok := in.(ssa.CallInstruction)
+			if !ok {
+				return
+			}
+			if callName(ci) == "dynamic" && isParamValue(p, ci.Common().Value, pk) {
+				nCalls++
+				return
+			}
+			for _, a := range ci.Common().Args {
+				if isParamValue(p, a, pk) {
+					escapes = callName(ci)
+				}
+			}
+		})
+		c.check(nCalls == 1 && escapes == "", "single-pack-site", h.Pos(), "the reply is packed at exactly one place in Handle",
+			fmt.Sprintf("the pack function is called %d times / handed to %q: some replies bypass RA forcing, OPT re-attachment or UDP truncation", nCalls, escapes))
 	}
 }
